@@ -98,6 +98,22 @@ impl Ctx {
         e.1 += 1;
     }
 
+    /// like `violation`, but the detail is only built for the first case of a key
+    pub fn violation_lazy(&self, key: impl Into<String>, detail: impl FnOnce() -> Value) {
+        let key = key.into();
+        {
+            let mut v = self.violations.lock().unwrap();
+            if let Some(e) = v.get_mut(&key) {
+                e.1 += 1;
+                return;
+            }
+        }
+        let d = detail();
+        let mut v = self.violations.lock().unwrap();
+        let e = v.entry(key).or_insert((d, 0));
+        e.1 += 1;
+    }
+
     /// something noteworthy outside the property's statement
     pub fn observe(&self, what: impl Into<String>) {
         *self
